@@ -363,6 +363,17 @@ static inline int spec_gm_div_i32_lane_ok(uint32_t q, uint32_t r, uint32_t n, ui
   }
   return ok;
 }
+/* one lane of a vector Denominator<vecNx64u> (GCC / Clang branches: the high product per lane through the scalar 128-bit
+ * multiplier).  q * d either by the 64-bit multiplier (vpmullq) or by the three-pmuludq emulation, lemma L1:
+ * lo(q) lo(d) + ((hi(d) lo(q) + hi(q) lo(d)) << 32) */
+static inline uint64_t spec_shr_u64(uint64_t x, uint64_t c) { return c >= 64 ? 0ull : x >> c; }
+static inline int spec_gm_div_u64_lane_ok(uint64_t q, uint64_t r, uint64_t n, uint64_t m, _Bool sh1, uint64_t sh2, uint64_t d) {
+  uint64_t t1 = (uint64_t)(AVM_MUL_u128((unsigned __int128)m, (unsigned __int128)n) >> 64);
+  uint64_t qq = spec_shr_u64(t1 + (sh1 ? ((n - t1) >> 1) : (n - t1)), sh2);
+  uint64_t ql = qq & 0xffffffffull, qh = qq >> 32, dl = d & 0xffffffffull, dh = d >> 32;
+  uint64_t p3 = AVM_MUL_u64(ql, dl) + (((AVM_MUL_u64(dh, ql) + AVM_MUL_u64(qh, dl)) & 0xffffffffull) << 32);
+  return q == qq && (r == n - AVM_MUL_u64(qq, d) || r == n - AVM_MUL_u64(d, qq) || r == n - p3);
+}
 static inline int spec_gm_div_u64_ok(uint64_t q, uint64_t r, uint64_t n, uint64_t m, uint64_t sh2, uint64_t d) {
   if (d == 1) return q == n && r == 0;
   uint64_t t1 = (uint64_t)(AVM_MUL_u128((unsigned __int128)m, (unsigned __int128)n) >> 64);
